@@ -447,6 +447,62 @@ def prio(which: int, p1: int, p2: int) -> bool:
     return hs.run_path(_prio_body, (which, p1, p2), corner=lambda w, p1, p2: w == 0 and p1 > p2)
 
 
+# ---------------------------------------------------------------------------------------------------------------------
+# priorities written in grammar text, through Lark(): two rules in a reduce/reduce conflict on the same text
+PL_PRIOS = [None, 1, 2, -1]
+PL_BODIES = ['X', 'X [Y]', 'X Y?', '[Y] X', 'X [Y] [Y Y]']
+PL_MODES = ['normal', 'invert', None, 'auto']
+
+if P and P.get('kind') == 'prioload':
+    from lark import Lark
+    from lark.exceptions import GrammarError, UnexpectedInput
+    PL_LEX = hs.make_list_lexer(['X', 'Y'])
+
+
+def _prioload_body(rec, pa, pb, body, mode, mp, order):
+    pa = PL_PRIOS[hs.sel(pa, len(PL_PRIOS))]
+    pb = PL_PRIOS[hs.sel(pb, len(PL_PRIOS))]
+    body = PL_BODIES[hs.sel(body, len(PL_BODIES))]
+    mode = PL_MODES[hs.sel(mode, len(PL_MODES))]
+    mp = bool(mp)
+    order = hs.sel(order, 2)
+    with hs.untraced():
+        ra = 'a%s: %s' % ('' if pa is None else '.%d' % pa, body)
+        rb = 'b%s: X' % ('' if pb is None else '.%d' % pb)
+        g = 'start: a | b\n%s\n%%declare X Y\n' % '\n'.join([ra, rb] if order == 0 else [rb, ra])
+        rec['key'] = [pa, pb, body, mode, mp, order]
+        rec['nontrivial'] = True
+        rec['count'] = {'grammars': 1}
+        # reference: the input X reduces by a's alternative without Y or by b; the documented resolution picks the strictly higher
+        # effective priority (absent = 0, negated under 'invert', all equal under None) and fails without a strict winner
+        ea, eb = (pa or 0), (pb or 0)
+        if mode == 'invert':
+            ea, eb = -ea, -eb
+        elif mode is None:
+            ea = eb = 0
+        want = 'a' if ea > eb else ('b' if eb > ea else 'GrammarError')
+        try:
+            lk = Lark(g, parser='lalr', lexer=PL_LEX, priority=mode, maybe_placeholders=mp)
+        except GrammarError as e:
+            got = 'GrammarError' if 'Reduce/Reduce' in str(e) else 'other GrammarError: %s' % str(e)[:80]
+        else:
+            try:
+                got = str(lk.parse([0]).children[0].data)
+            except UnexpectedInput as e:
+                got = 'rejects X'
+        if got != want:
+            return hs.fail(rec, 'reduce/reduce resolution by priorities written in the grammar: got %s, documented: %s' % (got, want), grammar=g, priority=mode,
+                           maybe_placeholders=mp)
+    return True
+
+
+def prioload(pa: int, pb: int, body: int, mode: int, mp: bool, order: int) -> bool:
+    """
+    post: _
+    """
+    return hs.run_path(_prioload_body, (pa, pb, body, mode, mp, order), corner=lambda pa, pb, body, mode, mp, order: hs.sel(pa, 4) == 3 and hs.sel(pb, 4) == 3 and mp)
+
+
 def plan(tier, seed):
     quick = tier == 'quick'
     L = 5 if quick else 8
@@ -456,6 +512,8 @@ def plan(tier, seed):
         Lg = L if Kg <= 3 else L - 1
         slices.append({'id': 'run:%s:L%d' % (g, Lg), 'func': 'run', 'params': {'kind': 'run', 'g': g, 'L': Lg},
                        'timeout': 120 if quick else 1200, 'bound': {'tokens': Lg}})
+    slices.append({'id': 'prioload:text-priorities', 'func': 'prioload', 'mode': 'realised', 'params': {'kind': 'prioload'}, 'timeout': 600,
+                   'bound': {'grammars': len(PL_PRIOS) ** 2 * len(PL_BODIES) * len(PL_MODES) * 2 * 2}})
     pool = 7 if quick else NP
     for pa in range(pool - 1):
         ng = (pool - 1 - pa) * (pool * (pool - 1) // 2)
